@@ -970,6 +970,16 @@ impl<K: PKey, V: PVal> ParRunner<K, V> {
                 let got = p.install(|| ma.par_eq(mb));
                 let seq = *ma == *mb;
                 check!(got == seq && got == (ra == rb), "par_eq: {} sequential {} reference {}", got, seq, ra == rb);
+                // the same object on both sides
+                let (got_s, seq_s) = (p.install(|| ma.par_eq(ma)), *ma == *ma);
+                check!(got_s == seq_s, "par_eq(self, self): {} sequential {}", got_s, seq_s);
+                // values whose `==` is not reflexive (NaN): par_eq must still agree with `==`, also on one object
+                let fm: hashbrown::HashMap<u64, f64> =
+                    me.iter().map(|e| (e.1, if e.4 % 3 == 0 { f64::NAN } else { e.4 as f64 })).collect();
+                let fc = fm.clone();
+                let (g1, s1) = (p.install(|| fm.par_eq(&fm)), fm == fm);
+                let (g2, s2) = (p.install(|| fm.par_eq(&fc)), fm == fc);
+                check!(g1 == s1 && g2 == s2, "par_eq with non-reflexive values: self {} (sequential {}), clone {} (sequential {})", g1, s1, g2, s2);
                 Ok(())
             }
             "par_union" | "par_intersection" | "par_difference" | "par_symmetric_difference" | "par_is_subset"
